@@ -83,13 +83,16 @@ def main():
             d = os.path.join(base, name)
             if not os.path.exists(os.path.join(d, "patch.diff")):
                 continue
-            checks = [json.load(open(os.path.join(d, "meta.json")))["property"]]
+            own = json.load(open(os.path.join(d, "meta.json")))["property"]
             rp = os.path.join(d, "result.json")
+            others = []
             if os.path.exists(rp):
-                for c in json.load(open(rp)).get("caught_by", []):
-                    if c not in checks:
-                        checks.append(c)
-            res = run_one(d, checks)
+                others = [c for c in json.load(open(rp)).get("caught_by", []) if c != own]
+            # the check of its own property first; the earlier reporters only
+            # if that one stays silent
+            res = run_one(d, [own])
+            if res is not None and own not in res["caught_by"] and others:
+                res = run_one(d, others)
             if res is not None and not res["caught_by"]:
                 missed.append(name)
         print("FINAL: missed = %s" % missed)
